@@ -13,7 +13,7 @@ from ..ref import quat as rq
 
 PROP = "C05"
 LEVEL = "exploration"
-SHARDS = {"quick": 8, "thorough": 16}
+SHARDS = {"quick": 16, "thorough": 16}
 TIME_CAP = {"quick": 200, "thorough": 2400}
 DEG = np.pi / 180.0
 
@@ -22,14 +22,14 @@ DEG = np.pi / 180.0
 TABLE = {
     "Madgwick/IMU": [("gain=0.4", {"gain": 0.4}, 4000, 5 * 0.4 * 0.01 + 2e-3, "qt"),
                      ("default", {}, 50000, 5 * 0.033 * 0.01 + 2e-3, "t")],
-    "Madgwick/MARG": [("gain=0.4", {"gain": 0.4}, 4000, 5 * 0.4 * 0.01 + 2e-3, "qt"),
+    "Madgwick/MARG": [("gain=0.4", {"gain": 0.4}, 6000, 5 * 0.4 * 0.01 + 2e-3, "qt"),
                       ("gain=0.041", {"gain": 0.041}, 50000, 5 * 0.041 * 0.01 + 2e-3, "t")],
     "Mahony/IMU": [("default", {}, 4000, 0.2 * DEG, "qt"), ("kP=3,kI=1", {"k_P": 3.0, "k_I": 1.0}, 3000, 0.2 * DEG, "qt")],
-    "Mahony/MARG": [("kP=3,kI=1", {"k_P": 3.0, "k_I": 1.0}, 4000, 1.0 * DEG, "qt"), ("default", {}, 20000, 1.0 * DEG, "t")],
+    "Mahony/MARG": [("kP=3,kI=1", {"k_P": 3.0, "k_I": 1.0}, 15000, 1.0 * DEG, "qt"), ("default", {}, 40000, 1.0 * DEG, "t")],
     "EKF/IMU/NED": [("default", {}, 3000, 0.2 * DEG, "qt")],
     "EKF/IMU/ENU": [("default", {}, 3000, 0.2 * DEG, "qt")],
-    "EKF/MARG/NED": [("default", {}, 6000, 0.3 * DEG, "qt")],
-    "EKF/MARG/ENU": [("default", {}, 6000, 0.3 * DEG, "qt")],
+    "EKF/MARG/NED": [("default", {}, 12000, 0.3 * DEG, "qt")],
+    "EKF/MARG/ENU": [("default", {}, 12000, 0.3 * DEG, "qt")],
     "UKF": [("default", {}, 6000, 1.0 * DEG, "qt")],
     "AQUA/IMU": [("default", {}, 4000, 0.1 * DEG, "qt")],
     "AQUA/IMU/adaptive": [("default", {}, 4000, 0.1 * DEG, "qt")],
@@ -37,7 +37,7 @@ TABLE = {
     "AQUA/MARG/adaptive": [("default", {}, 5000, 0.2 * DEG, "qt")],
     "ROLEQ/NED": [("default", {}, None, 0.2 * DEG, "qt")],     # N from the instance's own reference pair
     "ROLEQ/ENU": [("default", {}, None, 0.2 * DEG, "qt")],
-    "FKF": [("sigma_g=1", {"sigma_g": 1.0}, 2000, 1.0 * DEG, "qt"), ("default", {}, 10000, 1.0 * DEG, "t")],
+    "FKF": [("sigma_g=1", {"sigma_g": 1.0}, 4000, 2.0 * DEG, "qt"), ("default", {}, 15000, 2.0 * DEG, "t")],
     "Complementary/IMU": [("default", {}, 600, 0.05 * DEG, "qt"), ("gain=0.98", {"gain": 0.98}, 3000, 0.1 * DEG, "qt")],
     "Complementary/MARG": [("default", {}, 600, 0.05 * DEG, "qt")],
 }
@@ -54,12 +54,32 @@ REQUIRED_PROBES = ["madgwick.Madgwick.updateIMU", "madgwick.Madgwick.updateMARG"
                    "ekf.EKF.update", "aqua.AQUA.updateIMU", "aqua.AQUA.updateMARG", "roleq.ROLEQ.update", "fkf.FKF.kalman_update",
                    "complementary.Complementary.am_estimation"]
 RULE = ("cases = (filter configuration, true attitude Haar-random, initial error e0 in {175, 150-175, 90-150, 10-90, 0-10} deg about a "
-        "random axis (horizontal axis for accelerometer-only variants), magnetic dip in +-70 deg, gyro noise sigma 1e-6..1e-3 rad/s, "
+        "random axis (horizontal axis for accelerometer-only variants), magnetic dip in +-70 deg, gyro noise sigma 1e-6..1e-3 rad/s realised as 3-axis Gaussian / one-axis / two-axis / quantised (exact-zero components), "
         "seed); each case is one run of 1.5 N samples; non-trivial = e0 > 1 deg")
 ASSUMPTIONS = ["bounded-progress restatement: N and tol per configuration come from the filter's gain/geometry (Madgwick: N >= 4 pi/(gain dt), "
                "tol = 5 gain dt + 2e-3; ROLEQ: N from rho = (1 + 2|cos angle(refs)|)/3; others calibrated on the pinned tree, x2 in N and x5 in tol)",
                "measurement direction table of vt/filt.py (validated on the pinned tree)", "own reference pair >= 10 deg from collinear",
                "a slowdown smaller than the margin is invisible; one larger than it is reported although the filter may converge later"]
+
+
+GYRO_MODES = ["gaussian", "one-axis", "two-axes", "quantised", "gaussian"]
+
+
+def gyro_noise(rng, n, sigma, mode):
+    """Small-noise gyroscope realisations (all below ~4 sigma <= 4e-3 rad/s): continuous on three axes, confined to one or two
+    axes (the other components exactly zero), or quantised to an LSB of sigma/2 (many exactly-zero components)."""
+    G_ = rng.standard_normal((n, 3)) * sigma
+    if mode == "one-axis":
+        keep = int(rng.integers(3))
+        G_[:, [i for i in range(3) if i != keep]] = 0.0
+    elif mode == "two-axes":
+        G_[:, int(rng.integers(3))] = 0.0
+    elif mode == "quantised":
+        lsb = sigma / 2.0
+        G_ = np.round(G_ / lsb) * lsb
+        dead = ~np.any(G_ != 0, axis=1)             # an all-zero sample is 'no data' for every filter: keep the realisation noisy
+        G_[dead, 0] = lsb
+    return G_
 
 
 def e0_of(rng, reg):
@@ -78,7 +98,8 @@ def generate(rng, tier, shard, nshards):
                 if k % nshards != shard:
                     continue
                 yield Case("%s[%s]" % (name, lab), reg, cfg=name, label=lab, q_true=gens.unit(rng), axis=gens.axis(rng), e0_deg=e0_of(rng, reg),
-                           dip_deg=float(rng.uniform(-70, 70)), gyro_sigma=gens.logu(rng, 1e-6, 1e-3), seed=int(rng.integers(2**31)))
+                           dip_deg=float(rng.uniform(-70, 70)), gyro_sigma=gens.logu(rng, 1e-6, 1e-3), seed=int(rng.integers(2**31)),
+                           gyro_mode=GYRO_MODES[k % len(GYRO_MODES)])
 
 
 def nontrivial(case):
@@ -140,7 +161,7 @@ def check(case, ctx):
     q0 = rq.qnormalize(rq.qmul(d, qt) if cfg.conv == "T" else rq.qmul(qt, d))
     acc, mag = cfg.measurements(qt, g_ref, m_ref)
     n_tot = int(1.5 * N) + 1
-    G_ = rng.standard_normal((n_tot, 3)) * p["gyro_sigma"]
+    G_ = gyro_noise(rng, n_tot, p["gyro_sigma"], p.get("gyro_mode", "gaussian"))
     A = np.tile(acc, (n_tot, 1))
     M = None if mag is None else np.tile(mag, (n_tot, 1))
     if cfg.name == "FKF" or (not cfg.streams and not cfg.name.startswith("Complementary")):
@@ -164,6 +185,9 @@ def check(case, ctx):
     tail = err[idx >= N]
     detail = {"N": N, "tol_deg": np.degrees(tol), "e0_deg": p["e0_deg"], "err_deg@[0,N/4,N/2,N,1.25N,1.5N]":
               [round(float(np.degrees(err[np.searchsorted(idx, k)])), 5) for k in (0, N // 4, N // 2, N, int(1.25 * N), n_tot - 1)], "dip_deg": p["dip_deg"]}
+    if cfg.name == "FKF" and abs(p["dip_deg"]) > 40.0:
+        # FKF weights the heading by the horizontal field only: its convergence time grows without practical bound for steep dips
+        ctx.region_override = case.region + "/steep-dip"
     ctx.le("initial error is the requested one (harness self-check)", abs(e_start - e0), 1e-6 + (2e-2 if cfg.name == "FKF" else 0.0), detail)
     ctx.le("error below the filter's tolerance at sample N", float(err[np.searchsorted(idx, N)]), tol, detail)
     ctx.le("error stays below the tolerance from N to 1.5 N", float(tail.max()), tol, detail)
